@@ -27,7 +27,8 @@ func (c03) Meta() fw.Meta {
 			"every batch is also applied, in a different supply order that keeps equal-timestamp points in order, to a byte-identical twin file. " +
 			"oracle: acceptance iff now-maxRet < t <= now; accepted single sits in the ring slot of the finest archive with ret >= age (or the named one); rejected update leaves all bytes identical; " +
 			"batch: target ring == ring before + exactly the points younger than the archive's retention, last (timestamp, supply index) wins per slot; twin files end bit-identical. " +
-			"non-trivial = case saw an accept and a reject at a boundary and a batch that dropped at least one and stored at least one point; distinct by (layout, clock, ops).",
+			"non-trivial = case saw an accept and a reject at a boundary and a batch that dropped at least one and stored at least one point; distinct by (layout, clock, ops)." +
+			" Odd cases write NaN payloads and infinities as values (a supplied point is stored whatever it carries).",
 		Assumptions: []string{
 			"clock domain: maxRetention + 2*maxStep <= now and now + 2*maxStep < 2^32",
 			"'supplied last' = greatest (timestamp, supply index) among the points of one slot (batches are time-ordered first; DESIGN.md section 1.5)",
